@@ -68,8 +68,8 @@ _WS_EXT_RE: Final[Pattern[str]] = re.compile(
     r"^(?:;\s*(?:"
     r"(server_no_context_takeover)|"
     r"(client_no_context_takeover)|"
-    r"(server_max_window_bits(?:=(\d+))?)|"
-    r"(client_max_window_bits(?:=(\d+))?)))*$"
+    r"(server_max_window_bits(?:=([0-9]{1,2}))?)|"
+    r"(client_max_window_bits(?:=([0-9]{1,2}))?)))*$"
 )
 
 _WS_EXT_RE_SPLIT: Final[Pattern[str]] = re.compile(r"permessage-deflate([^,]+)?")
